@@ -130,7 +130,10 @@ def main():
         fr.setdefault(k_, v_)
     cone_fns = sorted({c.fn for c in clauses} | {c.name for c in b['contracts'] if pid in c.tags})
     assumed = [(c.name, c.assumed) for c in b['contracts'] if c.assumed and (pid in c.tags or any(pid in cl.tags for cl in c.requires + c.ensures))]
+    lost_here = [(n_, w_) for n_, w_ in b.get('lost', []) if n_ in cone_fns]
+    assumed = [x for x in assumed if not x[1].startswith('LOST ANCHOR')]
     unchecked = [f for f in cone_fns if f not in fr and f not in [x[0] for x in assumed]]
+    unchecked += ['%s (%s)' % lw for lw in lost_here if lw[0] not in unchecked]
     known, fixed = load_known()
     violations, known_hits = [], []
     for f in mine:
@@ -193,8 +196,9 @@ def main():
         'wall_s': round(time.time() - t0, 2),
         'violations': len(violations),
     }
-    os.makedirs(os.path.join(VERIF, 'evidence'), exist_ok=True)
-    with open(os.path.join(VERIF, 'evidence', pid + '.json'), 'w') as fh:
+    evdir = os.environ.get('VERIF_EVIDENCE_DIR') or os.path.join(VERIF, 'evidence')
+    os.makedirs(evdir, exist_ok=True)
+    with open(os.path.join(evdir, pid + '.json'), 'w') as fh:
         json.dump(ev, fh, indent=1)
     if rc == 0:
         print('OK property=%s obligations=%d discharged=%d functions=%d assumed=%d' % (pid, n_ob, n_ob - n_failed, len(cone_fns), len(assumed)))
